@@ -1,0 +1,37 @@
+//go:build verif
+
+package store
+
+import "encoding/binary"
+
+// Verification hooks for the SMT node cache (build tag `verif` only; add-only).
+// The cache discipline of setNode/getNode/delNode only shows at capacity (MaxCacheSize entries, i.e. about half a
+// million keys through one SMT instance). These hooks let the harness observe the cache size and bring a real SMT's
+// cache to capacity cheaply.
+
+// VerifMaxNodeCacheSize is the capacity of the node cache.
+func VerifMaxNodeCacheSize() int { return MaxCacheSize }
+
+// VerifNodeCacheLen is the number of entries in this SMT's node cache.
+func (s *SMT) VerifNodeCacheLen() int { return len(s.nodeCache) }
+
+// VerifPadNodeCache adds placeholder entries until the node cache holds `target` entries (at most MaxCacheSize) and
+// returns how many were added. Placeholder keys are 4 counter bytes followed by 0xFF: the last byte of a real node key
+// is its padding count (0..7), so a placeholder can never be looked up, overwritten or deleted by the tree; it only
+// occupies room, exactly like the cached nodes of other regions of a large tree.
+func (s *SMT) VerifPadNodeCache(target int) (added int) {
+	if target > MaxCacheSize {
+		target = MaxCacheSize
+	}
+	placeholder := &node{}
+	for i := uint32(0); len(s.nodeCache) < target; i++ {
+		k := make([]byte, 5)
+		binary.BigEndian.PutUint32(k, i)
+		k[4] = 0xFF
+		if _, taken := s.nodeCache[string(k)]; !taken {
+			s.nodeCache[string(k)] = placeholder
+			added++
+		}
+	}
+	return added
+}
